@@ -435,7 +435,11 @@ where
         .fitness()
         .nth(idx)
         .zip(b.fitness().nth(idx))
-        .map(|(a, b)| (a - b).abs() / a.abs().max(b.abs()))
+        .map(|(a, b)| {
+            // NOTE: divide first to avoid overflow, keep the value in [0, 1] when fitness values have opposite signs
+            let max = a.abs().max(b.abs());
+            (a / max - b / max).abs().min(1.)
+        })
         .expect("cannot get fitness by idx");
 
     value * sign * priority_amplifier
